@@ -99,6 +99,8 @@ def run(ctx):
     # both root types with two competing candidates each: a version finalized with a state root and an IO root of which one was the
     # second candidate of its type (it has to be moved to the finalized place on pathbadger) and the other the first
     runs.append(run_replay(ctx, "gen_nodedb_e.cfg", 60 if q else 4))
+    # competing I/O candidates of the same shape with other values (the second one finalized, the first one discarded)
+    runs.append(run_replay(ctx, "gen_nodedb_f.cfg", 1))
     runs.append(run_replay(ctx, "gen_nodedb_b.cfg", 900 if q else 120, gated=True))
     for _, s in runs:
         verdicts(ctx, s)
